@@ -149,11 +149,19 @@ def confirm_stall(ctx, hb, s, tag):
     env = ctx.env()
     base = int(os.environ.get("VERIF_WATCHDOG_MS", "5000") or "5000")
     env["VERIF_WATCHDOG_MS"] = str(4 * base)
-    rc, out = C.sh([hb, "run", "script", sp, tr], env=env, timeout=1200, cwd=ctx.work)
-    if rc != 0:
-        raise C.BuildError("client harness c09 failed while confirming a stall (rc=%s): %s" % (rc, out[-1500:]))
-    for a in parse_trace(tr).values():
-        return (a.status or "").startswith("stuck")
+    # once as the machine is, then on one processor: what happens between two yield points is not under the controlled
+    # scheduler, and a stall that depends on when a freshly started goroutine first runs shows under load (the batch run)
+    # or on few processors, not necessarily on an idle machine
+    for procs in (None, "1"):
+        if procs:
+            env["GOMAXPROCS"] = procs
+        rc, out = C.sh([hb, "run", "script", sp, tr], env=env, timeout=1200, cwd=ctx.work)
+        if rc != 0:
+            raise C.BuildError("client harness c09 failed while confirming a stall (rc=%s): %s" % (rc, out[-1500:]))
+        for a in parse_trace(tr).values():
+            if (a.status or "").startswith("stuck"):
+                return True
+            break
     return False
 
 
